@@ -644,6 +644,7 @@ impl<T: CountMinValue> CountMinSketch<T> {
             .vx_io("serial_version")?;
         let family_id = cursor.read_u8().vx_io("family_id")?;
         let flags = cursor.read_u8().vx_io("flags")?;
+        proof { assert(1u8 << 0 == 1u8) by (bit_vector); assert((flags & 1 == 1) == (flags & 1 != 0)) by (bit_vector); }
         cursor
             .read_u32_le()
             .vx_io("<unused>")?;
@@ -670,7 +671,6 @@ impl<T: CountMinValue> CountMinSketch<T> {
         }
 
         let entries = entries_for_config_checked(num_hashes, num_buckets)?;
-        proof { assert(1u8 << 0 == 1u8) by (bit_vector); assert((flags & 1 == 1) == (flags & 1 != 0)) by (bit_vector); }
         let mut sketch = Self::make(num_hashes, num_buckets, seed, entries, Ghost((b.len() as int, if flags & 1 != 0 { CM_CONFIG_MAX_EMPTY } else { 0int })));
         if (flags & FLAGS_IS_EMPTY) != 0 {
             proof { assert(vals(sketch.counts@) =~= izeros(entries as int)); }
